@@ -763,6 +763,12 @@ def subst_term(t, mapping: Dict[Term, Term]):
         kw = tuple((k, subst_term(v, mapping)) for k, v in t.kw)
         if t.fn in ('min', 'max') and not kw:
             return mk_minmax(t.fn, args)
+        if t.fn in ('%', '//') and len(args) == 2 and all(isinstance(a, Num) and isinstance(a.value, Fraction) and
+                                                           a.value.denominator == 1 for a in args) and args[1].value != 0:
+            a, b = int(args[0].value), int(args[1].value)
+            return Num(Fraction(a % b if t.fn == '%' else a // b))
+        if t.fn == 'abs' and len(args) == 1:
+            return mk_abs(args[0])
         return App(t.fn, args, kw)
     if isinstance(t, Poly):
         out = Num(Fraction(0))
